@@ -7,6 +7,9 @@ import (
 	_ "verif/props/c05"
 	_ "verif/props/c06"
 	_ "verif/props/c07"
+	_ "verif/props/c10"
+	_ "verif/props/c12"
+	_ "verif/props/c13"
 	_ "verif/props/c14"
 	_ "verif/props/c16"
 	_ "verif/props/selftest"
